@@ -36,6 +36,8 @@ def gen_int(args):
         y = bufs.setdefault(('y', len(ys), len(ys[0])), np.empty((len(ys), len(ys[0]))))
         np.copyto(x, np.array(xs, float))
         np.copyto(y, np.array(ys, float))
+        if (len(out) + K) % 3 == 0:
+            x, y = np.array(xs, dtype=np.int64), np.array(ys, dtype=np.int64)      # integer-typed features
         bound = np.inf if b2 == INF else float(np.sqrt(b2))
         # the tree's bound is strict; a pair exactly at the bound is allowed by the property either way
         xi, yi, err = call(emd, x, y, K, bound)
